@@ -12,7 +12,8 @@
    of the two real runs (the laws are facts about CPython and about observing handlers; validated there, not proved). *)
 From Coq Require Import List ZArith NArith Bool.
 Import ListNotations.
-From PyccoloV Require Import gen.PyAst gen.Ids gen.Events model.Tree model.Erase model.Prune proofs.EraseSound proofs.PruneSound.
+From PyccoloV Require Import gen.PyAst gen.Ids gen.Events model.Tree model.Erase model.Prune model.RwFrag proofs.EraseSound proofs.PruneSound
+  proofs.RwFragProofs proofs.RwFragProj.
 
 Theorem C03_proj_sound :
   forall (D : Type) (dnone : D) (sem : N -> list scalar -> list (list D) -> D) (K : list N) (eqvK : list D -> list D -> Prop),
@@ -36,6 +37,21 @@ Print Assumptions C03_only_subscribed.
 Theorem C03_kept_sites_all : forall K out, forallb (fun s => mem (fst s) K) (sites out) = true -> kept_sites K out = sites out.
 Proof. exact kept_sites_all. Qed.
 Print Assumptions C03_kept_sites_all.
+
+(* ---- the unbounded statement on the fragment model of the rewriter (model/RwFrag.v, tied to the real rewriter by K-syn):
+   for EVERY fragment program, EVERY set K of events and EVERY subscription set containing K, K-erasing the rewrite gives one
+   and the same tree (C03_rw_frag_canonical), so the rewrite for K alone and the rewrite for the superset pass the projection
+   check (C03_rw_frag_proj): what a tracer subscribed to K sees does not depend on which other events are on. *)
+Theorem C03_rw_frag_canonical : forall (K : list N) (c : rcfg) (m : tree),
+  inK K E_priv_load_saved_expr_stmt_ret = false -> (forall e, inK K e = true -> sub c e = true) -> in_frag m = true ->
+  erasek K (rw_module c m) = Some [rw_moduleK K m].
+Proof. intros K c m HK Hs Hm. exact (rw_module_proj K HK c Hs m Hm). Qed.
+Print Assumptions C03_rw_frag_canonical.
+Theorem C03_rw_frag_proj : forall (K : list N) (c : rcfg) (m : tree),
+  inK K E_priv_load_saved_expr_stmt_ret = false -> (forall e, inK K e = true -> sub c e = true) -> in_frag m = true ->
+  check_proj K (rw_module (cK K) m) (rw_module c m) = true.
+Proof. intros K c m HK Hs Hm. exact (rw_module_check_proj K HK c m Hs Hm). Qed.
+Print Assumptions C03_rw_frag_proj.
 
 (* non-vacuity: `x + 1` rewritten for {load_name} and for {load_name, after_binop}: the projection check passes for
    K = {load_name}; it fails when the larger rewrite lost the load_name site, or reports another node *)
